@@ -280,11 +280,6 @@ func (runInfo *runInfoStruct) invokeLetItemString(expr *ast.ItemExpr, item refle
 
 	if index == item.Len() {
 		// automatic append
-		if item.CanSet() {
-			item.SetString(item.String() + value.String())
-			return
-		}
-
 		runInfo.rv = reflect.ValueOf(item.String() + value.String())
 		runInfo.expr = expr.Item
 		runInfo.invokeLetExpr()
@@ -294,12 +289,6 @@ func (runInfo *runInfoStruct) invokeLetItemString(expr *ast.ItemExpr, item refle
 	if index < 0 || index >= item.Len() {
 		runInfo.err = newStringError(expr, "index out of range")
 		runInfo.rv = nilValue
-		return
-	}
-
-	if item.CanSet() {
-		item.SetString(item.Slice(0, index).String() + value.String() + item.Slice(index+1, item.Len()).String())
-		runInfo.rv = item
 		return
 	}
 
